@@ -244,15 +244,15 @@ ADDED = {
     "C13": "Added later: -r over nested directories; files sharing an import that cannot be loaded; assertion kinds inside a module instantiated from a function body / a map callback; an opaque identity so that the static checker cannot see through the hidden kinds. One invocation with 0..3, 255, 256, 257, 512 failing inputs; the exit status judged as the property words it (non-zero).",
     "C05": "Added later: Literals the printer must re-escape or re-scale (an infinite float, non-ASCII text next to every escape); comments after the last statement; the check refuses to start if a hand-written form does not parse. Several files in one invocation, a flat directory and -r over nested directories as further routes of `ucg fmt`. Commented files in three orders on the several-files / directory / -r routes.",
     "C01": "Added later: negative / i64::MIN / negative-float leaves; the S1 / S2 / S3-pair programs once more in non-strict mode. Five templates with backslashes. Callable values compared (168 programs).",
-    "C03": "Added later: the artifact file as third observation point (scalars in every position, the format-significant strings as value and key, short chains, mixed / multi-document lists through the real `ucg build` of `out <fmt> v;` into a directory holding a longer earlier artifact; the file is decoded). Values no data format can represent (a function, a module; top level and every container position) must be refused by json / yaml / yamlmulti / toml through converter, `convert` and `ucg build`.",
+    "C03": "Added later: the artifact file as third observation point (scalars in every position, the format-significant strings as value and key, short chains, mixed / multi-document lists through the real `ucg build` of `out <fmt> v;` into a directory holding a longer earlier artifact; the file is decoded). Values no data format can represent (a function, a module; top level and every container position) must be refused by json / yaml / yamlmulti / toml through converter, `convert` and `ucg build`. Strings ending in line breaks in every position of streams of two and three yamlmulti documents.",
     "C04": "Added later: 35 flat constructs grown to 4 KiB (also through the real `ucg build` / `ucg fmt` with their default stack); C05's layout family (every canonical statement form with each separator incl. four comment placements at every gap). Token positions inside statements that define or mention a self-instantiating module are not mutated (excluded by the property). 8..128 function / module values compared with each other; seven constraints that mention themselves unguarded x 5 values.",
     "C06": "Added later: each literal value again where the checker has no static shape for it (opaque identity, element of a mixed list, field of a function argument); exemplars that do not mention the values' first field; five more spellings (alias of a named constraint, an alternation split over two named constraints either way, the value first passing another constrained binding under two constraints). A recursive-constraint family (6 declarations x 4 spellings x 14 values); NULL, empty list / tuple for every constraint; list constraints with the non-conforming element first / middle / last. Per constraint one conforming and one non-conforming value through the exit status of the real `ucg build` (alone, after and before a good file). A select result first passing a constrained binding; callable values; NULL alternatives.",
     "C07": "Added later: include / import forms with data and decoy files (differential only); a function grid (43 bodies x 13 arguments, also called at two types), a nested-call grid (same / different parameter names), a producer x consumer grid (13 indirect producers x 6 value types x 24 consumers), a select-arm grid (functions, tuples and lists that are alike but not the same), a callback-name grid; a non-strict pass (--no-strict on both sides) over the documented forms, the grids, S1 and S2. A function-result-use grid, a copy-override grid, a callee-name grid, raw forms over std/ imports next to a same-named directory. A field-selection grid (bare / quoted names, 1..3 fields, four kinds of base), a nested-module grid, closures that leave a function, nine reported forms. Inner closure parameter of the same name with another type; the copy as one arm of a select; five more reported forms.",
-    "C08": "Added later: every list-valued flag of 1..3 (thorough 4) items over {str, int, float, bool, NULL, list, tuple} in every order, alone and as a tuple in exec args.",
-    "C09": "Added later: decoy projects main -> B -> C (B outside main's directory) in which the path B uses for C also names a file of another type against main's directory, the project root and the working directory (6 layouts x let/inline x let/inline x import/include). 16 more positions (constraint of a let, format @{} expression, filter / reduce target, bare statement, out expression, escaped spelling); package-style projects reached through two routes; a directory named std next to the built file. Paths that begin with the letters std without naming an embedded library; an include named like an embedded library; constraint range-end positions. A project file with an embedded library's name reached through three relative spellings.",
+    "C08": "Added later: every list-valued flag of 1..3 (thorough 4) items over {str, int, float, bool, NULL, list, tuple} in every order, alone and as a tuple in exec args. A constraint value as one more kind of field.",
+    "C09": "Added later: decoy projects main -> B -> C (B outside main's directory) in which the path B uses for C also names a file of another type against main's directory, the project root and the working directory (6 layouts x let/inline x let/inline x import/include). 16 more positions (constraint of a let, format @{} expression, filter / reduce target, bare statement, out expression, escaped spelling); package-style projects reached through two routes; a directory named std next to the built file. Paths that begin with the letters std without naming an embedded library; an include named like an embedded library; constraint range-end positions. A project file with an embedded library's name reached through three relative spellings. Cycle graphs with the import evaluated by a child VM (format expression, function / module body, map callback).",
     "C10": "Added later: constrained let and both constraint-statement forms among the rebinding binders (49 ordered pairs x 3 placements). The rebinding pairs and reserved words in non-strict mode; one name twice in a parameter list.",
     "C11": "Added later: every vocabulary token at the start / end of the text next to white space or a comment that is not followed by a line break.",
-    "C12": "Added later: every order of the fields of a full element, of ten valid / invalid field sets (3 depths) and of the document's own fields; the XML-significant strings as namespace URI (default, prefixed, on a child). Characters XML 1.0 cannot carry (text, attribute, names, namespace uri); the encoding field (names of encodings, a value with a quote); a prefix re-bound and bound back three levels deep.",
+    "C12": "Added later: every order of the fields of a full element, of ten valid / invalid field sets (3 depths) and of the document's own fields; the XML-significant strings as namespace URI (default, prefixed, on a child). Characters XML 1.0 cannot carry (text, attribute, names, namespace uri); the encoding field (names of encodings, a value with a quote); a prefix re-bound and bound back three levels deep. An empty / blank encoding; unrepresentable characters in default, prefixed and child namespaces.",
     "C14": "Added later: five file-name stems for the artifact-name clause; 0 / 1 / 2 out statements with the file named on the command line in five other ways (./x, sub/../x, ../x from a sub-directory, absolute, .//x); recursive listing. Two inputs in one invocation (8 converters x {convertible, unconvertible}^2).",
     "C15": "Added later: the same file included twice in one build (4 documents x every ordered pair of 7 include types x 3 layouts, triples over 4 types); integers beyond i64 (judged for json; beyond the decoders' agreement for yaml / toml and left unjudged there); substitution bytes 0xFF / 0x80 and non-ASCII documents in the corrupted pool. Floats that need a correctly rounding reader; programs that use the included value (select, index, add, compare, map); a quoted `<<` key holding no mapping. Byte order marks for b64 / b64urlsafe / str.",
     "C16": "Added later: a file that fails at run time after importing a file with its own out, and one that fails after its own out (10 files). A checker-only failure, a file reaching it through an inline import, a file handing the shared library to a typed parameter (13 files).",
